@@ -254,6 +254,68 @@ func (r *idxRanger) RefNext() (interface{}, interface{}, bool) {
 	return k, r.vals[r.i-1], true
 }
 
+// chanFeed is a custom Ranger whose underlying kind is one jet also ranges natively (a channel): its Range()
+// must win. It hands out the messages that are not heartbeats, without index.
+type chanFeed chan string
+
+func (c chanFeed) Range() (reflect.Value, reflect.Value, bool) {
+	for m := range c {
+		if m != "hb" {
+			return reflect.Value{}, reflect.ValueOf("[" + m + "]"), false
+		}
+	}
+	return reflect.Value{}, reflect.Value{}, true
+}
+func (c chanFeed) ProvidesIndex() bool { return false }
+func (c chanFeed) RefHasIndex() bool   { return false }
+func (c chanFeed) RefNext() (interface{}, interface{}, bool) {
+	for m := range c {
+		if m != "hb" {
+			return nil, "[" + m + "]", true
+		}
+	}
+	return nil, nil, false
+}
+
+func newChanFeed(msgs ...string) chanFeed {
+	c := make(chanFeed, len(msgs))
+	for _, m := range msgs {
+		c <- m
+	}
+	close(c)
+	return c
+}
+
+// sliceCursor is a custom Ranger of slice kind: element 0 is its cursor, the others are handed out in reverse
+// order with their distance from the end as index.
+type sliceCursor []*int
+
+func (s sliceCursor) Range() (reflect.Value, reflect.Value, bool) {
+	k, v, ok := s.RefNext()
+	if !ok {
+		return reflect.Value{}, reflect.Value{}, true
+	}
+	return reflect.ValueOf(k), reflect.ValueOf(v), false
+}
+func (s sliceCursor) ProvidesIndex() bool { return true }
+func (s sliceCursor) RefHasIndex() bool   { return true }
+func (s sliceCursor) RefNext() (interface{}, interface{}, bool) {
+	i := len(s) - 1 - *s[0]
+	if i < 1 {
+		return nil, nil, false
+	}
+	*s[0]++
+	return len(s) - 1 - i, *s[i] * 10, true
+}
+
+func newSliceCursor(vals ...int) sliceCursor {
+	s := sliceCursor{new(int)}
+	for i := range vals {
+		s = append(s, &vals[i])
+	}
+	return s
+}
+
 func newIdxRanger(idx bool, vals ...interface{}) *idxRanger {
 	r := &idxRanger{vals: vals, idx: idx}
 	for i := range vals {
